@@ -113,13 +113,15 @@ func runMirrorScript(id string, variant int, repl string, steps []mirrorStep, w 
 			switch st.Op {
 			case "Get":
 				gets++
-				if gets%2 == 1 {
-					o["first"] = "A"
-				} else {
-					o["first"] = "B"
-				}
 				var data []byte
 				data, err = Consume(m.Get(ctx, u.Digest(st.Objs[0], "")), variant/9)
+				// the replica consulted first is the one that received the first call of this read
+				for _, c := range log.Snapshot()[mark:] {
+					if c.Op == "Get" {
+						o["first"] = c.Backend
+						break
+					}
+				}
 				if err == nil {
 					if string(data) == string(u.Data(st.Objs[0])) {
 						o["res"] = "Data"
